@@ -119,6 +119,7 @@ impl StdRoutingLogic {
                 current_interface_id: ingress_interface_id,
                 forwarding_key,
                 ignore_macs,
+                segment_changed: std::cell::Cell::new(false),
             },
             ingress_interface_id == 0,
         );
@@ -188,6 +189,7 @@ impl StdRoutingLogic {
             interface_link_type_lookup,
             forwarding_key,
             ignore_macs,
+            segment_changed: std::cell::Cell::new(false),
         });
 
         // Check if the path was advanced successfully or if there was an error
@@ -482,6 +484,9 @@ struct StandardValidator<'a, Lookup: Fn(u16) -> Option<AsRoutingInterfaceState>>
     current_interface_id: u16,
     forwarding_key: &'a ForwardingKey,
     ignore_macs: bool,
+    /// Set once the segment change was validated: the hop field validated afterwards is the
+    /// second hop field of the crossover, which the packet did not arrive with.
+    segment_changed: std::cell::Cell<bool>,
 }
 impl<'a, Lookup: Fn(u16) -> Option<AsRoutingInterfaceState>> AdvanceValidator
     for StandardValidator<'a, Lookup>
@@ -504,6 +509,9 @@ impl<'a, Lookup: Fn(u16) -> Option<AsRoutingInterfaceState>> AdvanceValidator
         // Check validity of interfaces
         match self.ingress {
             // Checks done on ingress
+            // The ingress interface is only checked for the hop field the packet arrived with,
+            // not for the second hop field of a segment change.
+            true if self.segment_changed.get() => {}
             true => {
                 if self.current_interface_id != 0
                     && ingress_interface != 0
@@ -572,6 +580,8 @@ impl<'a, Lookup: Fn(u16) -> Option<AsRoutingInterfaceState>> AdvanceValidator
         next_hop_field: &HopFieldView,
         next_info_field: &InfoFieldView,
     ) -> Result<(), StandardRoutingError> {
+        self.segment_changed.set(true);
+
         let current_hop_ingress = current_hop_field.ingress_interface(current_info_field);
         let next_hop_egress = next_hop_field.egress_interface(next_info_field);
 
